@@ -16,7 +16,8 @@ EXPLANATION = (
     "wrapped in SinkError always derives from a callback / sink operation, and every function that matches on a stream "
     "error rebuilds the same variant (only `reverse` may swap, and no adapter calls it). (R15.4) try_for_each_item "
     "re-invokes try_for_some_item exactly while it returns Ok(true). (R15.6) a buffer swapped out of `self` is swapped "
-    "back on every path. NOT decided: the position bookkeeping of the third-party parsers; item order inside them.")
+    "back on every path. (R15.7) a buffer of Result items that one function both fills and drains is first-in-first-out "
+    "(push_back/pop_front; never push/pop), so items and the error that ends them keep their order. NOT decided: the position bookkeeping of the third-party parsers; item order inside them.")
 
 SCOPE = (r"api/src/source|api/src/(graph|dataset)\.rs$|api/src/(graph|dataset)/(adapter|_foreign_impl)\.rs$|rio/src/(parser|serializer)\.rs$|"
          r"/serializer|inmem/src/|jsonld/src/parser|api/src/serializer\.rs$|api/src/parser\.rs$")
